@@ -61,8 +61,14 @@ def cases(ctx):
             i += 1
             if ctx.mine(i):
                 yield {'kind': 'bit', 'bit': bit, 'enc': enc}
+            # the same with bit 1 ("second bitmap present") off - the second half is read whatever bit 1 says - and with
+            # ordinary configured elements flagged next to the one under test
+            for bit1, company in ((False, False), (True, True), (False, True)):
+                i += 1
+                if ctx.mine(i):
+                    yield {'kind': 'bit', 'bit': bit, 'enc': enc, 'bit1_off': not bit1, 'company': company}
     if ctx.shard == 0:
-        ctx.exhaustive_subspace('every input length 0..23; every bit 2..128 alone in the first bitmap x 2 codecs', 24 + 127 * 2)
+        ctx.exhaustive_subspace('every input length 0..23; every bit 2..128 in the first bitmap (alone / next to configured elements, bit 1 on / off) x 2 codecs', 24 + 127 * 2 * 4)
 
 
 def letters(rng, enc, n):
@@ -277,7 +283,12 @@ def judge(ctx, case):
     if kind == 'bit':
         bit = case['bit']
         bm = bytearray(16)
-        bm[0] |= 0x80
+        if not case.get('bit1_off'):
+            bm[0] |= 0x80
+        else:
+            ctx.count('first bitmaps with bit 1 off')
+        if case.get('company'):
+            bm[0] |= 0x70          # DE2, DE3, DE4
         bm[(bit - 1) // 8] |= 0x80 >> ((bit - 1) % 8)
         data = struct.pack('>I', 60) + '1240'.encode(case['enc']) + bytes(bm) + b'0' * 40
         configured = str(bit) in msgwork.cfg_of('packaged')
@@ -287,7 +298,7 @@ def judge(ctx, case):
         if k1 != 'ok':
             ctx.violation('bitmap:%s' % ('step_budget' if k1 == 'steps' else 'exception:' + type(info).__name__),
                           {'case': case, 'error': repr(info)})
-        elif configured and info.get('isValidIPM') is not True:
+        elif configured and not case.get('bit1_off') and info.get('isValidIPM') is not True:
             ctx.violation('bitmap:configured_bit_rejected', {'case': case, 'info': info})
         elif not configured and (info.get('isValidIPM') is not False or not info.get('reason')):
             ctx.violation('bitmap:unconfigured_bit_not_reported_invalid_with_reason', {'case': case, 'info': info})
@@ -319,6 +330,8 @@ def require(m):
         reasons.append('no file whose first record exceeds the inspection sample')
     if not m['counters'].get('cases run with MAX_VBS_RECORD_LENGTH changed at run time'):
         reasons.append('configured maximum never changed at run time')
+    if not m['counters'].get('first bitmaps with bit 1 off') and not m['violations']:
+        reasons.append('no first bitmap with bit 1 off')
     if set(m['classes'].get('first-bitmap bit classes', ())) != {'configured', 'unconfigured'}:
         reasons.append('bitmap classes not both driven')
     return reasons
